@@ -224,6 +224,24 @@ def layerOf (items : List IView) : Option LayerMap :=
   if items.all IView.isGlyph then some ((items.filterMap IView.glyph?).foldl insertView (fun _ => none))
   else none
 
+/-- the same collector with the map kept as `BTreeMap` keeps it: a list sorted by key under the order `lt`
+    of `Name`, an equal key replacing the entry -/
+def insertSorted (lt : Str → Str → Bool) (v : View) : List View → List View
+  | [] => [v]
+  | w :: r =>
+    if lt v.name w.name then v :: w :: r
+    else if v.name = w.name then v :: r
+    else w :: insertSorted lt v r
+
+/-- the order of `Name`: `str::cmp` compares bytes; on valid UTF-8 that is the lexicographic order of the
+    code points -/
+def lexLt (a b : Str) : Bool := decide (a < b)
+
+def sortedLayerOf (lt : Str → Str → Bool) (items : List IView) : Option (List View) :=
+  if items.all IView.isGlyph then
+    some ((items.filterMap IView.glyph?).foldl (fun m v => insertSorted lt v m) [])
+  else none
+
 /-- result of a (complete) parallel layer load under a schedule -/
 def parLoad (b : Bool) (s0 : NameSet) (next0 : Nat) (assign : List (List File)) (sched : List Nat) :
     Option LayerMap :=
